@@ -42,7 +42,8 @@ Verdict(e) ==
             LET b == FromHex(e.b)  g == Grammar(e.cls, b) IN
             [accept |-> IF e.strict THEN (e.accepted => g.ok) ELSE e.accepted = g.ok,
              canon  |-> e.accepted => (FromHex(e.reser) = g.ser /\ g.ser = Take(b, g.used)),
-             meta   |-> (e.accepted /\ e.cls = "Tx") => TxMetaOK(b, e.meta),
+             \* (measures are those of the grammar's object: where the grammar has none, the accept clause has already failed)
+             meta   |-> (e.accepted /\ e.cls = "Tx" /\ g.ok) => TxMetaOK(b, e.meta),
              grammar |-> g.ok]
       [] e.op = "rt"   -> [canon |-> e.accepted => e.reser = e.b]
       [] e.op = "obj"  -> [same |-> e.same, canon |-> e.reser = e.b]
